@@ -488,7 +488,7 @@ def replay_history(ctx, uni, judge, history, op):
 # ---- re-entrant endpoints --------------------------------------------------------------------------------------------
 
 CLIENT_TRIGGERS = DEF_KINDS + SET_KINDS + ["getProperties", "message", "delProperty"]
-DEVICE_TRIGGERS = NEW_KINDS + ["getProperties"]
+DEVICE_TRIGGERS = NEW_KINDS + ["getProperties", "enableBLOB"]
 
 
 def reactive_expected(model, op, reactions):
@@ -496,15 +496,20 @@ def reactive_expected(model, op, reactions):
     state and each endpoint fires at most once per operation, so the multiset does not depend on the router's iteration order."""
     total = Counter()
     fired = set()
-    work = [(op[2], op[3], op[1])]
+    if op[0] == "blob":
+        # the one state-changing top-level operation: the new policy is in force for everything the message sets off, including
+        # what a device sends back from inside its handling of the enableBLOB
+        work = [("enableBLOB", op[2], op[1], op[3])]
+    else:
+        work = [(op[2], op[3], op[1], None)]
     while work:
-        kind, name, sender = work.pop()
-        for side, eid in model.deliver(kind, name, sender):
+        kind, name, sender, value = work.pop()
+        for side, eid in (model.deliver(kind, name, sender, value) if kind == "enableBLOB" else model.deliver(kind, name, sender)):
             total[(side, eid)] += 1
             r = reactions.get((side, eid))
             if r is not None and (side, eid) not in fired and kind in r[0]:
                 fired.add((side, eid))
-                work.append((r[1], r[2], eid))
+                work.append((r[1], r[2], eid, None))
     return total, fired
 
 
@@ -543,6 +548,7 @@ def reactive_history(ctx, uni, judge, i):
         reactions[(side, eid)] = (trig, kind, name)
     real.reactions = reactions
     pops = [o for o in send_ops(uni, model)]
+    pops += [("blob", c, name, v) for c in model.clients for name in uni.names for v in POLICIES] * 3
     case_base = {"mode": "reactive", "i": i, "uni": [uni.devices, uni.clients]}
     for step in range(12):
         op = rng.choice(pops)
@@ -555,7 +561,10 @@ def reactive_history(ctx, uni, judge, i):
         ctx.count("deliveries_observed", len(got_list))
         ctx.count("reentrant_operations")
         ctx.count("reentrant_sends_from_inside_a_delivery", len(fired))
-        ctx.count("client_originated_messages" if op[0] == "csend" else "device_originated_messages")
+        ctx.count("client_originated_messages" if op[0] in ("csend", "blob") else "device_originated_messages")
+        if op[0] == "blob":
+            history.append(op)
+            ctx.count("reentrant_enableBLOB_operations")
         if exc is None and got == want:
             continue
         case = dict(case_base, step=step, op=list(op))
